@@ -13,8 +13,8 @@ pub struct C07;
 
 fn n_cases(tier: Tier) -> u64 {
     match tier {
-        Tier::Quick => 300_000,
-        Tier::Thorough => 8_000_000,
+        Tier::Quick => 600_000,
+        Tier::Thorough => 20_000_000,
     }
 }
 
